@@ -40,7 +40,13 @@ Example C03_example :
   length (t_running s) + length (t_cancelled s) + length (t_ended s) + n_forgotten s = 3.
 Proof. vm_compute. repeat split; reflexivity. Qed.
 
+(** Monitor soundness: the extracted monitor for C03 (all nine clauses) never rejects a stream of the model (P-self: open finding D11). *)
+From TP Require PMonSound_C03 PObs PMon.
+Theorem mon_sound : forall c tr, clean (run c tr) -> taint_self (run c tr) = false -> PMon.ok_C03 c (PObs.observe c tr) = true.
+Proof. exact PMonSound_C03.mon_C03_sound. Qed.
+
 Print Assumptions C03.
 Print Assumptions C03_transitions.
 Print Assumptions C03_cancel_cb_iff.
 Print Assumptions C03_end_cb_class.
+Print Assumptions mon_sound.
